@@ -50,13 +50,20 @@ type OpSpec struct {
 	// thresholds, "every 1024th call" maintenance) is reached inside the simulation,
 	// at a cost of one call - not of one build-dump-compare - per repetition.
 	Warm int `json:"warm,omitempty"`
+	// Cool > 0: the mirror image - the recorded call comes FIRST, then the same entry
+	// is called Cool times on other arguments while the caller keeps what the first
+	// call returned (outcomes of a simulated run are dumped when the run is over). A
+	// result must stay what it was while the process makes thousands of further calls:
+	// output carved from an arena or ring that is recycled after a megabyte or after
+	// 1 024 results is only overwritten then.
+	Cool int `json:"cool,omitempty"`
 }
 
 func (s OpSpec) String() string {
-	if s.Warm > 0 {
-		w := s.Warm
-		s.Warm = 0
-		return fmt.Sprintf("%s+warm%d", s.String(), w)
+	if s.Warm > 0 || s.Cool > 0 {
+		w, c := s.Warm, s.Cool
+		s.Warm, s.Cool = 0, 0
+		return fmt.Sprintf("%s+warm%d+cool%d", s.String(), w, c)
 	}
 	if s.Var != 0 {
 		return fmt.Sprintf("%s/%s#%x~%x", s.Fam, s.Name, s.Seed, s.Var)
@@ -809,7 +816,7 @@ func ifaces(vs []reflect.Value) []interface{} {
 // Build instantiates an operation. task is the executing task's index (used by
 // the recycle mode to find its pair).
 func (c *Catalogue) Build(spec OpSpec, env *Env, task int) *Inst {
-	if spec.Warm > 0 {
+	if spec.Warm > 0 || spec.Cool > 0 {
 		return c.buildWarm(spec, env, task)
 	}
 	r := NewRng(Mix(spec.Seed, Hash64(spec.Fam+"/"+spec.Name)))
@@ -888,8 +895,11 @@ func (c *Catalogue) Build(spec OpSpec, env *Env, task int) *Inst {
 // buildWarm: see OpSpec.Warm. All repetitions are built here (on the goroutine that
 // builds the run), only the calls themselves happen inside the operation.
 func (c *Catalogue) buildWarm(spec OpSpec, env *Env, task int) *Inst {
-	n := spec.Warm
-	spec.Warm = 0
+	n, cool := spec.Warm, false
+	if spec.Cool > 0 {
+		n, cool = spec.Cool, true
+	}
+	spec.Warm, spec.Cool = 0, 0
 	in := c.Build(spec, env, task)
 	wr := NewRng(Mix(spec.Seed, 0x7761726d))
 	var pool [8]uint64
@@ -914,6 +924,10 @@ func (c *Catalogue) buildWarm(spec OpSpec, env *Env, task int) *Inst {
 	}
 	do := in.Do
 	in.Do = func() []interface{} {
+		var res []interface{}
+		if cool {
+			res = do()
+		}
 		for _, w := range warm {
 			vsimrt.ArmLimit(perRep)
 			warmCall(w)
@@ -923,9 +937,16 @@ func (c *Catalogue) buildWarm(spec OpSpec, env *Env, task int) *Inst {
 		} else {
 			vsimrt.ArmLimit(maxBaselineYields + 1)
 		}
-		return do()
+		if !cool {
+			res = do()
+		}
+		return res
 	}
-	in.Spec.Warm = n
+	if cool {
+		in.Spec.Cool = n
+	} else {
+		in.Spec.Warm = n
+	}
 	return in
 }
 
